@@ -142,3 +142,42 @@ func Unshare(p *sl.Program) *sl.Program {
 	}
 	return &q
 }
+
+// CaseVariantProgram / CaseVariantRequest: argument names that differ only in letter case, delivered through
+// the query string (so that the library's own parser, with its map iteration, decides their order inside one
+// collection entry), selected by string and regex keys written in either case, with counters.
+func CaseVariantProgram(r R) *sl.Program {
+	p := &sl.Program{Engine: "On"}
+	keys := []string{"Ab", "ab", "AB", "ID", "id", "Foo", "foo"}
+	n := 3 + r.IntN(5)
+	for i := 0; i < n; i++ {
+		id := 100 + i
+		k := Pick(r, keys)
+		var sel sl.Sel
+		switch r.IntN(4) {
+		case 0:
+			sel = sl.Sel{Var: Pick(r, []string{"ARGS_GET", "ARGS", "ARGS_NAMES", "ARGS_GET_NAMES"}), Kind: 1, Key: k}
+		case 1:
+			sel = sl.Sel{Var: Pick(r, []string{"ARGS_GET", "ARGS"}), Kind: 2, Key: "^" + k + "$"}
+		case 2:
+			sel = sl.Sel{Var: Pick(r, []string{"ARGS_GET", "ARGS_NAMES"}), Kind: 2, Key: "^" + k[:1]}
+		default:
+			sel = sl.Sel{Var: "ARGS_GET", Kind: 2, Key: "^" + k + "$", Count: true}
+		}
+		rule := &sl.Rule{ID: id, Phase: 1 + r.IntN(2), Severity: -1, Targets: []sl.Sel{sel}, Op: &sl.Op{Name: "rx", Arg: "."},
+			Setvars: []sl.Setvar{{Key: fmt.Sprintf("n%d", id), Kind: "+", Val: "1"}}}
+		if Chance(r, 0.3) {
+			rule.Targets = append(rule.Targets, sl.Sel{Var: sel.Var, Kind: 2, Key: "^" + Pick(r, keys) + "$", Excl: true})
+		}
+		if Chance(r, 0.2) {
+			rule.Disruptive, rule.Status = "deny", 403
+		}
+		p.Items = append(p.Items, sl.Item{Rule: rule})
+	}
+	return p
+}
+
+func CaseVariantRequest(r R) *sl.Req {
+	qs := []string{"Ab=1&ab=2", "ab=2&Ab=1&AB=3", "ID=7&id=8", "Foo=x&foo=y&FOO=z", "Ab=1&ID=2&id=3&ab=4", "foo=1&Foo=2&Ab=3"}
+	return &sl.Req{Method: "GET", Path: "/cv", Status: 200, RawQuery: Pick(r, qs)}
+}
